@@ -28,6 +28,7 @@ MODULES = ['Alpaqa.Props.C03_Ocp', 'Alpaqa.Props.C05_Ocp', 'Alpaqa.Props.C06_Ocp
 EXTRA_SOURCES = ['Alpaqa/Model/Ocp.lean', 'Alpaqa/Proofs/OcpInv.lean', 'Alpaqa/Proofs/OcpLoop.lean',
                  'Alpaqa/Proofs/OcpLs.lean', 'Alpaqa/Proofs/OcpFuel.lean', 'Alpaqa/Proofs/OcpTicks.lean',
                  'Alpaqa/Proofs/OcpDescent.lean', 'Alpaqa/Proofs/OcpExample.lean', 'Alpaqa/Proofs/C06Spec.lean',
+                 'Alpaqa/Proofs/OcpDoc.lean', 'Alpaqa/Proofs/OcpSized.lean', 'Alpaqa/Proofs/OcpWrite.lean',
                  'Alpaqa/Gen/C05.lean', 'Alpaqa/Gen/C06.lean',
                  'Driver/LoopOcp.lean', 'Driver/ReplayCommon.lean']
 GEN_SCRIPTS = ['gen_c05.py', 'gen_c06.py']
